@@ -283,13 +283,37 @@ Proof.
     apply N.eqb_eq; exact (sweep 9 _ noclear_sweep p Hp).
 Qed.
 
-Lemma fresh_perm_low mode : mode < 2 ^ 9 -> fm_perm (fresh pr mode) < 2 ^ 9.
+Definition plain_perm (mode : N) : N := N.ldiff (N.land mode 4095) (p_umask pr).
+
+Lemma plain_perm_low mode : mode < 2 ^ 9 -> plain_perm mode < 2 ^ 9.
 Proof.
-  intros Hm. cbn [fresh fm_perm]. apply ldiff_lt.
+  intros Hm. unfold plain_perm. apply ldiff_lt.
   assert (N.land mode 4095 = mode); [|congruence].
   change 4095 with (N.ones 12). rewrite N.land_ones. apply N.mod_small.
   change (2 ^ 9) with 512 in Hm. change (2 ^ 12) with 4096. lia.
 Qed.
+
+(* a word below 2^9 has no set-group-ID bit *)
+Lemma no_sgid_low p : p < 2 ^ 9 -> has p S_ISGID = false.
+Proof.
+  intros Hp. unfold has. apply negb_false_iff, N.eqb_eq. apply N.bits_inj. intro n.
+  rewrite N.land_spec, N.bits_0. change S_ISGID with (2 ^ 10). rewrite N.pow2_bits_eqb.
+  destruct (N.eqb_spec 10 n) as [<-|Hne]; [|apply andb_false_r].
+  rewrite (testbit_small p 9 10 Hp) by lia. reflexivity.
+Qed.
+
+(* What UnTar keeps true of every directory it creates entries in (a new entry takes the group of a
+   set-group-ID directory, a new directory its set-group-ID bit too): under --no-same-owner no
+   directory has a foreign group to hand down, under --no-same-permissions none is set-group-ID. *)
+Definition dir_inv (pm : fmeta) : Prop :=
+  (no_same_owner o = true -> inherit_gid pr pm = p_gid pr) /\
+  (no_same_permissions o = true -> has (fm_perm pm) S_ISGID = false).
+
+Lemma dir_inv_touched pm : dir_inv pm -> dir_inv (set_mtime pm Now).
+Proof. intros H. exact H. Qed.
+
+Lemma dir_inv_none : dir_inv meta_none.
+Proof. split; intros _; reflexivity. Qed.
 
 Lemma statmode_of_attrs a : wf_attrs a -> node_statmode (meta_of a) = t_mode a.
 Proof. intros [Hm Ht _ _ _ _]. unfold node_statmode, meta_of. cbn [m_mode]. apply mode_roundtrip_word; assumption. Qed.
@@ -300,20 +324,33 @@ Proof. intros Ha. rewrite (statmode_of_attrs a Ha). reflexivity. Qed.
 Lemma ins_all_xs a : ins_all (xs_of a) [] = sort_xattrs (t_xattrs a).
 Proof. unfold ins_all, xs_of. apply sort_xattrs_idem. Qed.
 
-(* files and directories: created with mode0 (0666 / 0777), then chown, xattrs, chmod, utimes *)
-Lemma apply_perms_fresh v a mode0 :
-  wf_attrs a -> mode0 < 2 ^ 9 ->
-  apply_perms o v (meta_of a) (xs_of a) (fresh pr mode0) =
+(* files and directories: created with mode0 (0666 / 0777) in the directory pm, then chown, xattrs,
+   chmod, utimes.  What the new object inherited from pm is overwritten by the explicit chown and
+   chmod -- or was nothing, by [dir_inv], when they are switched off. *)
+Lemma apply_perms_fresh v a pm isdir mode0 :
+  wf_attrs a -> mode0 < 2 ^ 9 -> dir_inv pm ->
+  apply_perms o v (meta_of a) (xs_of a) (fresh pr pm isdir mode0) =
   mkFMeta (exp_perm pr o a mode0) (fst (exp_owner pr o a)) (snd (exp_owner pr o a)) (exp_time a) (exp_xattrs o a).
 Proof.
-  intros Ha Hm0. unfold apply_perms, exp_perm, exp_owner, exp_time, exp_xattrs, meta_chown.
-  rewrite (chmod_of_attrs a Ha).
-  pose proof (fresh_perm_low mode0 Hm0) as Hlow.
-  rewrite (chown_clear_low v _ Hlow).
-  cbn [meta_of m_uid m_gid m_mtime].
-  destruct (no_same_owner o); destruct (no_same_permissions o); destruct (t_mtime a =? 0);
-    cbn [fresh set_perm set_owner set_xattrs set_mtime fm_perm fm_uid fm_gid fm_mtime fm_xattrs fst snd];
+  intros Ha Hm0 [Hi1 Hi2]. unfold apply_perms, exp_perm, exp_owner, exp_time, exp_xattrs, meta_chown, fresh.
+  rewrite (chmod_of_attrs a Ha). fold (plain_perm mode0).
+  pose proof (plain_perm_low mode0 Hm0) as Hlow.
+  cbn [meta_of m_uid m_gid m_mtime fm_perm].
+  destruct (no_same_owner o) eqn:Eo; destruct (no_same_permissions o) eqn:Ep;
+    try rewrite (Hi1 eq_refl); try rewrite (Hi2 eq_refl); rewrite ?andb_false_r;
+    try rewrite (chown_clear_low v _ Hlow);
+    destruct (t_mtime a =? 0);
+    cbn [set_perm set_owner set_xattrs set_mtime fm_perm fm_uid fm_gid fm_mtime fm_xattrs fst snd];
     rewrite ?ins_all_xs; reflexivity.
+Qed.
+
+(* the directory just made satisfies the invariant for its own children *)
+Lemma dir_inv_expected a t :
+  dir_inv (mkFMeta (exp_perm pr o a 511) (fst (exp_owner pr o a)) (snd (exp_owner pr o a)) t (exp_xattrs o a)).
+Proof.
+  split; intros E.
+  - unfold inherit_gid, exp_owner. rewrite E. cbn [fst snd fm_gid]. destruct (has _ S_ISGID); reflexivity.
+  - unfold exp_perm. rewrite E. cbn [fm_perm]. apply no_sgid_low. apply (plain_perm_low 511). reflexivity.
 Qed.
 
 End Expected.
@@ -377,13 +414,13 @@ Definition touched (m : fmeta) : fmeta := set_mtime m Now.
 
 Lemma in_dir_fresh nm g m ents : assoc nm ents = None ->
   in_dir nm g (FDir m ents) =
-    match g None with
+    match g m None with
     | FErr e => FErr e
     | FOk (Some n, t) => FOk (FDir (if t then touched m else m) (ents ++ [(nm, n)]))
     | FOk (None, t) => FOk (FDir (if t then touched m else m) ents)
     end.
 Proof.
-  intros Hf. cbn [in_dir]. rewrite Hf. destruct (g None) as [[[n|] t]|e]; try reflexivity;
+  intros Hf. cbn [in_dir]. rewrite Hf. destruct (g m None) as [[[n|] t]|e]; try reflexivity;
     rewrite (upd_ents_fresh _ nm ents Hf); reflexivity.
 Qed.
 
@@ -411,7 +448,7 @@ Definition result_dir (m : fmeta) (ents : list (bytes * fnode)) (nm : bytes) (oe
   end.
 
 Definition node_local (c : tree) : Prop :=
-  wf_tree c -> unique_tree c -> forall m ents nm, assoc nm ents = None ->
+  wf_tree c -> unique_tree c -> forall m ents nm, assoc nm ents = None -> dir_inv pr o m ->
   untar pr o (nodes_of [nm] c) (FDir m ents) = FOk (result_dir m ents nm (expect pr o c)).
 
 Lemma touched_twice m : touched (touched m) = touched m.
@@ -420,24 +457,25 @@ Proof. reflexivity. Qed.
 Lemma kids_local : forall ch,
   Forall (fun p => node_local (snd p)) ch -> wf_kids ch -> Forall (fun p => unique_tree (snd p)) ch ->
   NoDup (map fst ch) ->
-  forall m ents, (forall k, In k (map fst ch) -> assoc k ents = None) ->
+  forall m ents, (forall k, In k (map fst ch) -> assoc k ents = None) -> dir_inv pr o m ->
   untar pr o (kids_nodes [] ch) (FDir m ents) =
   FOk (FDir (match exp_kids ch with [] => m | _ => touched m end) (ents ++ exp_kids ch)).
 Proof.
-  induction ch as [|[k c] r IH]; intros Hloc Hwf Hun Hnd m ents Hfr.
+  induction ch as [|[k c] r IH]; intros Hloc Hwf Hun Hnd m ents Hfr Hinv.
   - cbn [kids_nodes flat_map exp_kids untar]. now rewrite app_nil_r.
   - inversion Hloc as [|? ? Hc Hlr]; subst. inversion Hwf as [|? ? [Hgn Hwc] Hwr]; subst.
     inversion Hun as [|? ? Huc Hur]; subst. cbn [map fst] in Hnd. inversion Hnd as [|? ? Hk Hndr]; subst.
     cbn [snd fst] in *.
     change (kids_nodes [] ((k, c) :: r)) with (nodes_of [k] c ++ kids_nodes [] r).
-    rewrite untar_app. rewrite (Hc Hwc Huc m ents k (Hfr k (or_introl eq_refl))). cbn [bindf].
+    rewrite untar_app. rewrite (Hc Hwc Huc m ents k (Hfr k (or_introl eq_refl)) Hinv). cbn [bindf].
     unfold exp_kids. cbn [flat_map]. fold (exp_kids r).
     destruct (expect pr o c) as [e|]; cbn [result_dir app].
     + rewrite (IH Hlr Hwr Hur Hndr (touched m) (ents ++ [(k, e)])).
       * rewrite <- app_assoc. cbn [app]. destruct (exp_kids r); reflexivity.
       * intros k' Hk'. rewrite assoc_snoc_other; [apply Hfr; right; exact Hk'|].
         intros ->. exact (Hk Hk').
-    + apply (IH Hlr Hwr Hur Hndr m ents). intros k' Hk'. apply Hfr. right. exact Hk'.
+      * exact Hinv.
+    + apply (IH Hlr Hwr Hur Hndr m ents); [|exact Hinv]. intros k' Hk'. apply Hfr. right. exact Hk'.
 Qed.
 
 Lemma kids_nodes_shift nm ch : kids_nodes [nm] ch = map (shift_node [nm]) (kids_nodes [] ch).
@@ -480,15 +518,15 @@ Proof.
 Qed.
 
 (* devices: mknod(mode|0666), then chown, xattrs, chmod, utimes *)
-Lemma apply_perms_dev a chr r :
-  wf_attrs a ->
-  apply_perms o (FDev (fresh pr (N.lor (t_mode a) 438)) chr r) (meta_of a) (xs_of a) (fresh pr (N.lor (t_mode a) 438)) =
+Lemma apply_perms_dev a pm chr r :
+  wf_attrs a -> dir_inv pr o pm ->
+  apply_perms o (FDev (fresh pr pm false (N.lor (t_mode a) 438)) chr r) (meta_of a) (xs_of a) (fresh pr pm false (N.lor (t_mode a) 438)) =
   mkFMeta (exp_dev_perm a) (fst (exp_owner pr o a)) (snd (exp_owner pr o a)) (exp_time a) (exp_xattrs o a).
 Proof.
-  intros Ha. unfold apply_perms, exp_dev_perm, exp_owner, exp_time, exp_xattrs, meta_chown.
+  intros Ha [Hi1 _]. unfold apply_perms, exp_dev_perm, exp_owner, exp_time, exp_xattrs, meta_chown.
   rewrite (chmod_of_attrs a Ha).
-  unfold fresh. cbn [meta_of m_uid m_gid m_mtime fm_perm]. rewrite (land_lor_perm (t_mode a)). fold (perm_of a).
-  destruct (no_same_owner o); destruct (no_same_permissions o); destruct (t_mtime a =? 0);
+  unfold fresh. cbn [andb meta_of m_uid m_gid m_mtime fm_perm]. rewrite (land_lor_perm (t_mode a)). fold (perm_of a).
+  destruct (no_same_owner o) eqn:Eo; try rewrite (Hi1 eq_refl); destruct (no_same_permissions o); destruct (t_mtime a =? 0);
     cbn [set_perm set_owner set_xattrs set_mtime fm_perm fm_uid fm_gid fm_mtime fm_xattrs fst snd chown_clear];
     rewrite ?ins_all_xs; reflexivity.
 Qed.
@@ -506,22 +544,23 @@ Proof.
   destruct (set_all_xattrs p xs s') as [s''|e]; reflexivity.
 Qed.
 
-Lemma apply_perms_link a tg :
-  apply_perms (mkLopts (no_same_owner o) true) (FLink (mkFMeta 511 (p_uid pr) (p_gid pr) Now []) tg)
-              (meta_of a) (xs_of a) (mkFMeta 511 (p_uid pr) (p_gid pr) Now []) =
+Lemma apply_perms_link a pm tg :
+  dir_inv pr o pm ->
+  apply_perms (mkLopts (no_same_owner o) true) (FLink (mkFMeta 511 (p_uid pr) (inherit_gid pr pm) Now []) tg)
+              (meta_of a) (xs_of a) (mkFMeta 511 (p_uid pr) (inherit_gid pr pm) Now []) =
   mkFMeta 511 (fst (exp_owner pr o a)) (snd (exp_owner pr o a)) (exp_time a) (exp_xattrs o a).
 Proof.
-  unfold apply_perms, exp_owner, exp_time, exp_xattrs, meta_chown.
+  intros [Hi1 _]. unfold apply_perms, exp_owner, exp_time, exp_xattrs, meta_chown.
   cbn [no_same_owner no_same_permissions meta_of m_uid m_gid m_mtime fm_perm].
-  change (chown_clear (FLink (mkFMeta 511 (p_uid pr) (p_gid pr) Now []) tg) 511) with 511.
-  destruct (no_same_owner o); destruct (t_mtime a =? 0);
+  change (chown_clear (FLink (mkFMeta 511 (p_uid pr) (inherit_gid pr pm) Now []) tg) 511) with 511.
+  destruct (no_same_owner o) eqn:Eo; try rewrite (Hi1 eq_refl); destruct (t_mtime a =? 0);
     cbn [set_perm set_owner set_xattrs set_mtime fm_perm fm_uid fm_gid fm_mtime fm_xattrs fst snd];
     rewrite ?ins_all_xs; reflexivity.
 Qed.
 
 Lemma node_local_all : forall c, node_local c.
 Proof.
-  induction c as [a ch IH|a d|a tg|a r|a] using tree_ind'; intros Hwf Hun m ents nm Hf.
+  induction c as [a ch IH|a d|a tg|a r|a] using tree_ind'; intros Hwf Hun m ents nm Hf Hinv.
   - (* directory *)
     apply wf_tree_dir in Hwf. destruct Hwf as (Ha & Hty & Hlen & Hk).
     apply unique_tree_dir in Hun. destruct Hun as (Hnd & Huk).
@@ -532,32 +571,32 @@ Proof.
                              (FDir (mkFMeta (exp_perm pr o a 511) (fst (exp_owner pr o a)) (snd (exp_owner pr o a))
                                             (exp_time a) (exp_xattrs o a)) []))).
     { unfold create_dir, lstat. cbn [lookup]. rewrite Hf. unfold mkdir. rewrite entry_op_single, (in_dir_fresh nm _ m ents Hf).
-      cbn [bindf]. fold (child (touched m) ents nm (FDir (fresh pr 511) [])).
+      cbn [bindf]. fold (child (touched m) ents nm (FDir (fresh pr m true 511) [])).
       rewrite (perms_child (touched m) ents nm o (meta_of a) (xs_of a) _ Hf).
-      cbn [fmeta_of with_meta]. rewrite (apply_perms_fresh pr o _ a 511 Ha ltac:(reflexivity)). reflexivity. }
+      cbn [fmeta_of with_meta]. rewrite (apply_perms_fresh pr o _ a m true 511 Ha ltac:(reflexivity) Hinv). reflexivity. }
     rewrite Hcreate. cbn [bindf].
     rewrite kids_nodes_shift.
     rewrite (localf_untar (touched m) ents nm Hf pr o _ (kids_nodes_nonempty ch)).
-    rewrite (kids_local ch IH Hk Huk Hnd); [|intros; reflexivity].
+    rewrite (kids_local ch IH Hk Huk Hnd); [|intros; reflexivity|apply dir_inv_expected].
     cbn [lift_child app]. rewrite expect_dir. unfold result_dir, child.
     destruct (exp_kids ch); reflexivity.
   - (* file *)
     destruct Hwf as (Ha & Hty & Hs). cbn [nodes_of untar untar_node].
     unfold create_file, remove_all, create_write. rewrite entry_op_single, (in_dir_fresh nm _ m ents Hf). cbn [bindf].
     rewrite entry_op_single, (in_dir_fresh nm _ m ents Hf). cbn [bindf].
-    fold (child (touched m) ents nm (FFile (fresh pr 438) d)).
+    fold (child (touched m) ents nm (FFile (fresh pr m false 438) d)).
     rewrite (perms_child (touched m) ents nm o (meta_of a) (xs_of a) _ Hf). cbn [bindf fmeta_of with_meta].
-    rewrite (apply_perms_fresh pr o _ a 438 Ha ltac:(reflexivity)).
+    rewrite (apply_perms_fresh pr o _ a m false 438 Ha ltac:(reflexivity) Hinv).
     rewrite expect_file. reflexivity.
   - (* symlink *)
     destruct Hwf as (Ha & Hty & Hs). cbn [nodes_of untar untar_node].
     unfold create_symlink, unlink_if_there, unlink, symlink.
     rewrite entry_op_single, (in_dir_fresh nm _ m ents Hf). cbn [bindf].
     rewrite entry_op_single, (in_dir_fresh nm _ m ents Hf). cbn [bindf].
-    fold (child (touched m) ents nm (FLink (mkFMeta 511 (p_uid pr) (p_gid pr) Now []) tg)).
+    fold (child (touched m) ents nm (FLink (mkFMeta 511 (p_uid pr) (inherit_gid pr m) Now []) tg)).
     rewrite link_tail.
     rewrite (perms_child (touched m) ents nm _ (meta_of a) (xs_of a) _ Hf). cbn [bindf fmeta_of with_meta].
-    rewrite apply_perms_link. rewrite expect_link. reflexivity.
+    rewrite (apply_perms_link a m tg Hinv). rewrite expect_link. reflexivity.
   - (* device *)
     destruct Hwf as (Ha & Hty). cbn [unique_tree] in Hun. cbn [nodes_of untar untar_node].
     unfold create_device, unlink_if_there, unlink, mknod.
@@ -567,9 +606,9 @@ Proof.
     assert (Hdev : (N.land (t_mode a) S_IFMT =? S_IFCHR) || (N.land (t_mode a) S_IFMT =? S_IFBLK) = true).
     { destruct Hty as [E|E]; unfold type_is in E; rewrite E; reflexivity. }
     rewrite Hdev. cbn [bindf]. rewrite (mkdev_split r Hun).
-    fold (child (touched m) ents nm (FDev (fresh pr (N.lor (t_mode a) 438)) (N.land (t_mode a) S_IFMT =? S_IFCHR) r)).
+    fold (child (touched m) ents nm (FDev (fresh pr m false (N.lor (t_mode a) 438)) (N.land (t_mode a) S_IFMT =? S_IFCHR) r)).
     rewrite (perms_child (touched m) ents nm o (meta_of a) (xs_of a) _ Hf). cbn [bindf fmeta_of with_meta].
-    rewrite (apply_perms_dev a _ _ Ha). rewrite expect_dev. reflexivity.
+    rewrite (apply_perms_dev a m _ _ Ha Hinv). rewrite expect_dev. reflexivity.
   - cbn [nodes_of untar expect result_dir]. reflexivity.
 Qed.
 
@@ -577,14 +616,14 @@ Qed.
 
 Lemma in_dir_last nm g m ents old : assoc nm ents = None ->
   in_dir nm g (FDir m (ents ++ [(nm, old)])) =
-    match g (Some old) with
+    match g m (Some old) with
     | FErr e => FErr e
     | FOk (Some n, t) => FOk (FDir (if t then touched m else m) (ents ++ [(nm, n)]))
     | FOk (None, t) => FOk (FDir (if t then touched m else m) ents)
     end.
 Proof.
   intros Hf. cbn [in_dir]. rewrite (assoc_snoc nm ents old Hf).
-  destruct (g (Some old)) as [[[n|] t]|e]; try reflexivity;
+  destruct (g m (Some old)) as [[[n|] t]|e]; try reflexivity;
     rewrite (upd_ents_snoc _ nm ents old Hf); reflexivity.
 Qed.
 
@@ -621,8 +660,8 @@ Proof.
   cbn [nodes_of]. fold (kids_nodes [] ch). cbn [untar untar_node].
   unfold create_dir, lstat, empty_root. cbn [lookup is_fdir bindf].
   rewrite perms_self. cbn [bindf fmeta_of with_meta].
-  rewrite (apply_perms_fresh pr o _ a 511 Ha ltac:(reflexivity)).
-  rewrite (kids_local pr o ch); [| |exact Hk|exact Huk|exact Hnd|intros; reflexivity].
+  rewrite (apply_perms_fresh pr o _ a meta_none true 511 Ha ltac:(reflexivity) (dir_inv_none pr o)).
+  rewrite (kids_local pr o ch); [| |exact Hk|exact Huk|exact Hnd|intros; reflexivity|apply dir_inv_expected].
   - cbn [app]. destruct (exp_kids pr o ch); reflexivity.
   - clear. induction ch as [|p r IH]; constructor; [apply node_local_all|exact IH].
 Qed.
@@ -948,4 +987,25 @@ Lemma create_file_reuse_refuted :
   let mt := mkMeta 0 0 33188 5 in
   xattrs_of_a (create_file_reuse pr default_opts [[97]] mt [] [1] reuse_before) = Some [([117], [1])] /\
   xattrs_of_a (create_file pr default_opts [[97]] mt [] [1] reuse_before) = Some [].
+Proof. vm_compute. split; reflexivity. Qed.
+
+(* ---------- why every new entry is chowned, also to the user who runs the extraction ---------- *)
+
+(* a set-group-ID directory (mode 02775) of group 7; the process is root:root *)
+Definition sgid_dir : fnode := FDir (mkFMeta 1533 0 7 (Stamp 1) []) [].
+
+Definition owner_of_a (r : fres fnode) : option (N * N) :=
+  match r with
+  | FOk n => option_map (fun e => (fm_uid (fmeta_of e), fm_gid (fmeta_of e))) (lookup [[97]] n)
+  | FErr _ => None
+  end.
+
+(* the file "a" of the archive belongs to 0:0, like the process: created in the set-group-ID directory
+   it has the directory's group 7; the chown of the code puts 0 back, the variant that skips the chown
+   "because the file is ours anyway" leaves 7 *)
+Lemma create_file_lazy_chown_refuted :
+  let pr := mkProc 0 0 18 in
+  let mt := mkMeta 0 0 33188 5 in
+  owner_of_a (create_file_lazy_chown pr [[97]] mt [] [1] sgid_dir) = Some (0, 7) /\
+  owner_of_a (create_file pr default_opts [[97]] mt [] [1] sgid_dir) = Some (0, 0).
 Proof. vm_compute. split; reflexivity. Qed.
